@@ -85,8 +85,10 @@ Proof.
     assert (Hr' : rest_tok (l_hp x) (l_n x) rest) by (intros p o Hin; apply Hr; now right).
     assert (Hdel : forall d, dict_ok (l_hp x) (l_n x) d -> dict_ok (l_hp x) (l_n x) (ddel pid d)).
     { intros d Hdd p o Hg. rewrite dget_ddel in Hg. destruct (pid =? p); [discriminate|]. now apply Hdd. }
-    destruct po as [o|].
-    + destruct (Hr pid o (or_introl eq_refl)) as [Ho Hp].
+    destruct (match po with Some o => if o_reused (l_hp x o) then None else Some o | None => None end) as [o|] eqn:Ecached.
+    + assert (Epo : po = Some o).
+      { destruct po as [o'|]; [|discriminate]. destruct (o_reused (l_hp x o')); [discriminate|]. now inversion Ecached. }
+      subst po. destruct (Hr pid o (or_introl eq_refl)) as [Ho Hp].
       destruct attrs as [l|].
       * destruct (as_dict t valid (l_ru x) pid (l_hp x o) l) as [[r ob'] ru'] eqn:Ead.
         pose proof (as_dict_pid _ _ _ _ _ _ _ _ _ Ead) as Hpid.
@@ -140,83 +142,6 @@ Proof.
         cbn [l_pm l_hp l_n] in IH. exact (IH (Hdel _ Hd) Hr').
 Qed.
 
-(* ---- a token that is in no cache stays out, and marks only accumulate inside the loop *)
-Definition dict_no (x : nat) (d : dict) : Prop := forall p, dget p d <> Some x.
-Definition rest_no (x : nat) (rest : list (Z * option nat)) : Prop := forall p, ~ In (p, Some x) rest.
-
-Lemma set_add_incl x l p : In p l -> In p (set_add x l).
-Proof. unfold set_add. destruct (zmem x l); [auto|now right]. Qed.
-
-Lemma is_running_obj_ru t ru pid ob r ob' ru' :
-  is_running_obj t ru pid ob = (r, ob', ru') -> forall p, In p ru -> In p ru'.
-Proof.
-  unfold is_running_obj. destruct (o_gone ob || o_reused ob); [intros H; inversion H; subst; auto|].
-  destruct (find_proc t pid) as [k|]; [|intros H; inversion H; subst; auto].
-  destruct (k_start k =? o_start ob); intros H; inversion H; subst; auto.
-  intros p Hp. now apply set_add_incl.
-Qed.
-
-Lemma as_dict_ru t valid ru pid ob l r ob' ru' :
-  as_dict t valid ru pid ob l = (r, ob', ru') -> forall p, In p ru -> In p ru'.
-Proof.
-  unfold as_dict. destruct (existsb _ _); [intros H; inversion H; subst; auto|].
-  destruct (zmem PPID _).
-  - destruct (o_gone ob || o_reused ob); [intros H; inversion H; subst; auto|].
-    destruct (_ && negb (alive t pid)); [intros H; inversion H; subst; auto|].
-    destruct (is_running_obj t ru pid ob) as [[r1 ob1] ru1] eqn:E.
-    pose proof (is_running_obj_ru _ _ _ _ _ _ _ E) as Hru.
-    destruct r1; intros H; inversion H; subst; exact Hru.
-  - destruct (_ && negb (alive t pid)); intros H; inversion H; subst; auto.
-Qed.
-
-Lemma loop_nox t valid attrs x0 : forall rest x,
-  (x0 < l_n x)%nat -> dict_no x0 (l_pm x) -> rest_no x0 rest ->
-  let r := gen_loop t valid attrs x rest in
-  let x' := lres_state r in
-  dict_no x0 (l_pm x') /\ (l_n x <= l_n x')%nat /\ (forall p, In p (l_ru x) -> In p (l_ru x')) /\
-  match r with LYield _ rest' _ o _ => o <> x0 /\ rest_no x0 rest' | _ => True end.
-Proof.
-  induction rest as [|[pid po] rest IH]; intros x Hx Hd Hr.
-  - cbn. repeat split; auto.
-  - cbn [gen_loop].
-    assert (Hr' : rest_no x0 rest) by (intros p Hin; apply (Hr p); now right).
-    assert (Hdel : forall d, dict_no x0 d -> dict_no x0 (ddel pid d)).
-    { intros d Hdd p Hg. rewrite dget_ddel in Hg. destruct (pid =? p); [discriminate|]. now apply (Hdd p). }
-    destruct po as [o|].
-    + assert (Hox : o <> x0) by (intros ->; apply (Hr pid); now left).
-      destruct attrs as [l|].
-      * destruct (as_dict t valid (l_ru x) pid (l_hp x o) l) as [[r ob'] ru'] eqn:Ead.
-        pose proof (as_dict_ru _ _ _ _ _ _ _ _ _ Ead) as Hru.
-        destruct r as [keys|e|].
-        -- cbn [lres_state l_pm l_n l_ru]. repeat split; auto.
-        -- destruct e; [|cbn [lres_state l_pm l_n l_ru]; repeat split; auto ..].
-           specialize (IH {| l_pm := ddel pid (l_pm x); l_hp := upd_heap (l_hp x) o ob'; l_n := l_n x; l_ru := ru' |}).
-           cbn [l_pm l_n l_ru] in IH. destruct (IH Hx (Hdel _ Hd) Hr') as [H1 [H2 [H3 H4]]].
-           repeat split; auto.
-        -- cbn [lres_state]. repeat split; auto.
-      * cbn [lres_state]. repeat split; auto.
-    + destruct (find_proc t pid) as [k|].
-      * assert (Hd1 : dict_no x0 (dset pid (l_n x) (l_pm x))).
-        { intros p Hg. rewrite dget_dset in Hg. destruct (pid =? p); [inversion Hg; lia|now apply (Hd p)]. }
-        destruct attrs as [l|].
-        -- cbn [l_ru l_hp l_n l_pm].
-           destruct (as_dict t valid (l_ru x) pid _ l) as [[r ob'] ru'] eqn:Ead.
-           pose proof (as_dict_ru _ _ _ _ _ _ _ _ _ Ead) as Hru.
-           destruct r as [keys|e|].
-           ++ cbn [lres_state l_pm l_n l_ru]. repeat split; auto; lia.
-           ++ destruct e; [|cbn [lres_state l_pm l_n l_ru]; repeat split; auto; lia ..].
-              specialize (IH {| l_pm := ddel pid (dset pid (l_n x) (l_pm x));
-                                l_hp := upd_heap (upd_heap (l_hp x) (l_n x) (new_obj pid (k_start k))) (l_n x) ob';
-                                l_n := S (l_n x); l_ru := ru' |}).
-              cbn [l_pm l_n l_ru] in IH.
-              destruct (IH (Nat.lt_lt_succ_r _ _ Hx) (Hdel _ Hd1) Hr') as [H1 [H2 [H3 H4]]].
-              repeat split; auto; lia.
-           ++ cbn [lres_state l_pm l_n l_ru]. repeat split; auto.
-        -- cbn [lres_state l_pm l_n l_ru]. repeat split; auto; lia.
-      * specialize (IH {| l_pm := ddel pid (l_pm x); l_hp := l_hp x; l_n := l_n x; l_ru := l_ru x |}).
-        cbn [l_pm l_n l_ru] in IH. exact (IH Hx (Hdel _ Hd) Hr').
-Qed.
-
 (* ---- the prologue: the private copy is a part of the cache without the marked PIDs *)
 Opaque nodup.
 Lemma gen_start_sub t pmap0 reused0 pm ls low :
@@ -235,24 +160,6 @@ Proof.
     + apply in_map_iff in Hin as [q [He _]]. discriminate.
 Qed.
 Transparent nodup.
-
-Lemma loop_ru t valid attrs : forall rest x p,
-  In p (l_ru x) -> In p (l_ru (lres_state (gen_loop t valid attrs x rest))).
-Proof.
-  induction rest as [|[pid po] rest IH]; intros x p Hp; [exact Hp|].
-  cbn [gen_loop]. destruct po as [o|].
-  - destruct attrs as [l|]; [|exact Hp].
-    destruct (as_dict t valid (l_ru x) pid (l_hp x o) l) as [[r ob'] ru'] eqn:Ead.
-    pose proof (as_dict_ru _ _ _ _ _ _ _ _ _ Ead p Hp) as Hru.
-    destruct r as [keys|e|]; [exact Hru| |exact Hp].
-    destruct e; try exact Hru. apply IH. exact Hru.
-  - destruct (find_proc t pid) as [k|]; [|apply IH; exact Hp].
-    destruct attrs as [l|]; [|exact Hp]. cbn [l_ru l_hp l_n l_pm].
-    destruct (as_dict t valid (l_ru x) pid _ l) as [[r ob'] ru'] eqn:Ead.
-    pose proof (as_dict_ru _ _ _ _ _ _ _ _ _ Ead p Hp) as Hru.
-    destruct r as [keys|e|]; [exact Hru| |exact Hp].
-    destruct e; try exact Hru. apply IH. exact Hru.
-Qed.
 
 (* ---- shape of run_loop *)
 Lemma run_loop_facts valid s g a pm rest :
@@ -411,3 +318,168 @@ Proof. induction h as [|e h IH]; intros s K; [exact K|]. cbn [fold_left]. apply 
 
 Theorem Kpid_final valid h : Kpid (final valid h).
 Proof. apply Kpid_fold. apply Kpid_init. Qed.
+
+
+(* ================================================================================ *)
+(* b70d950: once an object carries the 'PID reused' flag, no generator ever yields it. *)
+Definition flag_ok (x : nat) (hp : nat -> obj) (n : nat) : Prop := (x < n)%nat /\ o_reused (hp x) = true.
+
+Lemma is_running_obj_flag t ru pid ob r ob' ru' :
+  is_running_obj t ru pid ob = (r, ob', ru') -> o_reused ob = true -> o_reused ob' = true.
+Proof.
+  unfold is_running_obj. destruct (o_gone ob || o_reused ob); [intros H; now inversion H|].
+  destruct (find_proc t pid) as [k|]; [|intros H; inversion H; subst; auto].
+  destruct (k_start k =? o_start ob); intros H; inversion H; subst; auto.
+Qed.
+
+Lemma as_dict_flag t valid ru pid ob l r ob' ru' :
+  as_dict t valid ru pid ob l = (r, ob', ru') -> o_reused ob = true -> o_reused ob' = true.
+Proof.
+  unfold as_dict. destruct (existsb _ _); [intros H; now inversion H|].
+  destruct (zmem PPID _).
+  - destruct (o_gone ob || o_reused ob); [intros H; now inversion H|].
+    destruct (_ && negb (alive t pid)); [intros H; now inversion H|].
+    destruct (is_running_obj t ru pid ob) as [[r1 ob1] ru1] eqn:E.
+    pose proof (is_running_obj_flag _ _ _ _ _ _ _ E) as Hf.
+    destruct r1; intros H; inversion H; subst; exact Hf.
+  - destruct (_ && negb (alive t pid)); intros H; now inversion H.
+Qed.
+
+Lemma flag_upd x hp n o ob2 :
+  flag_ok x hp n -> (o_reused (hp o) = true -> o_reused ob2 = true) -> flag_ok x (upd_heap hp o ob2) n.
+Proof.
+  intros [Hx Hf] Hm. split; [exact Hx|]. unfold upd_heap. destruct (Nat.eqb x o) eqn:E; [|exact Hf].
+  apply Nat.eqb_eq in E. subst o. now apply Hm.
+Qed.
+
+Lemma flag_new x hp n ob2 : flag_ok x hp n -> flag_ok x (upd_heap hp n ob2) (S n).
+Proof.
+  intros [Hx Hf]. split; [lia|]. unfold upd_heap. destruct (Nat.eqb x n) eqn:E; [apply Nat.eqb_eq in E; lia|exact Hf].
+Qed.
+
+Lemma loop_flag t valid attrs x0 : forall rest x,
+  flag_ok x0 (l_hp x) (l_n x) ->
+  let r := gen_loop t valid attrs x rest in
+  flag_ok x0 (l_hp (lres_state r)) (l_n (lres_state r)) /\
+  match r with LYield _ _ _ o _ => o <> x0 | _ => True end.
+Proof.
+  induction rest as [|[pid po] rest IH]; intros x Hf.
+  - cbn. split; [exact Hf|exact I].
+  - cbn [gen_loop].
+    destruct (match po with Some o => if o_reused (l_hp x o) then None else Some o | None => None end) as [o|] eqn:Ecached.
+    + assert (Hnf : o_reused (l_hp x o) = false).
+      { destruct po as [o'|]; [|discriminate]. destruct (o_reused (l_hp x o')) eqn:E; [discriminate|]. inversion Ecached; subst. exact E. }
+      assert (Hox : o <> x0) by (intros ->; destruct Hf as [_ Hf]; congruence).
+      destruct attrs as [l|]; [|cbn [lres_state]; split; [exact Hf|exact Hox]].
+      destruct (as_dict t valid (l_ru x) pid (l_hp x o) l) as [[r ob'] ru'] eqn:Ead.
+      pose proof (as_dict_flag _ _ _ _ _ _ _ _ _ Ead) as Hm.
+      destruct r as [keys|e|].
+      * cbn [lres_state l_hp l_n]. split; [|exact Hox]. apply flag_upd; [exact Hf|]. intros H. cbn. now apply Hm.
+      * assert (Hf' : flag_ok x0 (upd_heap (l_hp x) o ob') (l_n x)) by (apply flag_upd; [exact Hf|exact Hm]).
+        destruct e; [|cbn [lres_state l_hp l_n]; split; [exact Hf'|exact I] ..].
+        apply (IH {| l_pm := ddel pid (l_pm x); l_hp := upd_heap (l_hp x) o ob'; l_n := l_n x; l_ru := ru' |}). exact Hf'.
+      * cbn [lres_state]. split; [exact Hf|exact I].
+    + destruct (find_proc t pid) as [k|]; [|apply (IH {| l_pm := ddel pid (l_pm x); l_hp := l_hp x; l_n := l_n x; l_ru := l_ru x |}); exact Hf].
+      pose proof (flag_new x0 (l_hp x) (l_n x) (new_obj pid (k_start k)) Hf) as Hf1.
+      assert (Hnx : l_n x <> x0) by (destruct Hf; lia).
+      destruct attrs as [l|]; [|cbn [lres_state l_hp l_n]; split; [exact Hf1|exact Hnx]].
+      cbn [l_ru l_hp l_n l_pm].
+      destruct (as_dict t valid (l_ru x) pid _ l) as [[r ob'] ru'] eqn:Ead.
+      pose proof (as_dict_flag _ _ _ _ _ _ _ _ _ Ead) as Hm.
+      destruct r as [keys|e|].
+      * cbn [lres_state l_hp l_n]. split; [|exact Hnx]. apply flag_upd; [exact Hf1|]. intros H. cbn. now apply Hm.
+      * assert (Hf' : flag_ok x0 (upd_heap (upd_heap (l_hp x) (l_n x) (new_obj pid (k_start k))) (l_n x) ob') (S (l_n x)))
+          by (apply flag_upd; [exact Hf1|exact Hm]).
+        destruct e; [|cbn [lres_state l_hp l_n]; split; [exact Hf'|exact I] ..].
+        apply (IH {| l_pm := ddel pid (dset pid (l_n x) (l_pm x));
+                     l_hp := upd_heap (upd_heap (l_hp x) (l_n x) (new_obj pid (k_start k))) (l_n x) ob';
+                     l_n := S (l_n x); l_ru := ru' |}). exact Hf'.
+      * cbn [lres_state l_hp l_n]. split; [exact Hf1|exact I].
+Qed.
+
+Lemma run_loop_flag valid x0 s g a pm rest :
+  flag_ok x0 (heap s) (nobj s) ->
+  flag_ok x0 (heap (fst (run_loop valid s g a pm rest))) (nobj (fst (run_loop valid s g a pm rest))) /\
+  forall p i, snd (run_loop valid s g a pm rest) <> OYield p x0 i.
+Proof.
+  intros Hf.
+  pose proof (run_loop_facts valid s g a pm rest) as F. cbn zeta in F.
+  pose proof (loop_flag (tbl s) valid a x0 rest {| l_pm := pm; l_hp := heap s; l_n := nobj s; l_ru := reused s |} Hf) as L.
+  cbn zeta in L. destruct F as [_ [Fh [Fn [_ [_ Fm]]]]]. destruct L as [L1 L2]. rewrite Fh, Fn. split; [exact L1|].
+  destruct (gen_loop _ _ _ _ _) as [x1 rest1 p ob i|x1|x1 e|x1]; destruct Fm as [_ [_ Fo]]; rewrite Fo;
+    intros p' i' H; try discriminate. injection H as _ H _. congruence.
+Qed.
+
+Lemma Fstep valid x0 s e :
+  flag_ok x0 (heap s) (nobj s) ->
+  flag_ok x0 (heap (fst (step valid s e))) (nobj (fst (step valid s e))) /\
+  forall g p i, e = IterNext g -> snd (step valid s e) <> OYield p x0 i.
+Proof.
+  intros Hf. destruct e; cbn [step]; try (split; [|intros; discriminate]).
+  - destruct (_ && _); exact Hf.
+  - exact Hf.
+  - exact Hf.
+  - destruct (_ && _); exact Hf.
+  - exact Hf.
+  - destruct (pids_sorted _) as [[l low]| |]; exact Hf.
+  - destruct (n <? 0); [exact Hf|]. destruct (n =? 0); [|exact Hf]. destruct (pids_sorted _) as [[l low]| |]; exact Hf.
+  - exact Hf.
+  - destruct (Nat.leb (ngen s) g); [split; [exact Hf|intros; discriminate]|].
+    destruct (gens s g) as [a|a pm rest|]; [| |split; [exact Hf|intros; discriminate]].
+    + destruct (gen_start _ _ _) as [[[pm ls] low]|e|]; [|split; [exact Hf|intros; discriminate] ..].
+      destruct (run_loop_flag valid x0 (mk s (tbl s) (pmap s) [] (Some low) (heap s) (nobj s) (gens s) (ngen s)) g a pm ls Hf) as [H1 H2].
+      split; [exact H1|]. intros g0 p i _. apply H2.
+    + destruct (run_loop_flag valid x0 s g a pm rest Hf) as [H1 H2]. split; [exact H1|]. intros g0 p i _. apply H2.
+  - destruct (Nat.leb (ngen s) g); [exact Hf|]. destruct (gens s g); exact Hf.
+  - exact Hf.
+  - destruct (Nat.leb (nobj s) o); [exact Hf|].
+    destruct (is_running_obj _ _ _ _) as [[r ob'] ru'] eqn:Er. cbn [fst mk heap nobj].
+    apply flag_upd; [exact Hf|]. exact (is_running_obj_flag _ _ _ _ _ _ _ Er).
+Qed.
+
+Definition runs (valid : list Z) (s : st) (h : list ev) : st := fold_left (fun s e => fst (step valid s e)) h s.
+
+Lemma flag_runs valid x0 h : forall s, flag_ok x0 (heap s) (nobj s) -> flag_ok x0 (heap (runs valid s h)) (nobj (runs valid s h)).
+Proof.
+  induction h as [|e h IH]; intros s Hf; [exact Hf|]. cbn [runs fold_left]. apply IH. apply (Fstep valid x0 s e Hf).
+Qed.
+
+(* an object that carries the 'PID reused' flag is never yielded, by any generator, in any continuation *)
+Theorem flagged_never_yielded valid x s h g p i :
+  (x < nobj s)%nat -> o_reused (heap s x) = true ->
+  snd (step valid (runs valid s h) (IterNext g)) <> OYield p x i.
+Proof.
+  intros Hx Hf. pose proof (flag_runs valid x h s (conj Hx Hf)) as H.
+  exact (proj2 (Fstep valid x _ (IterNext g) H) g p i eq_refl).
+Qed.
+
+(* After is_running() on object x returned False because its PID now belongs to a process with another
+   start time, x is never yielded again: not by generators entered later, not by generators that were
+   suspended at that moment, whatever the interleaving. *)
+Theorem found_recycled_never_again valid h0 x h1 g p i :
+  let s0 := final valid h0 in
+  (x < nobj s0)%nat -> o_gone (heap s0 x) = false -> o_reused (heap s0 x) = false ->
+  (exists k, find_proc (tbl s0) (o_pid (heap s0 x)) = Some k /\ k_start k <> o_start (heap s0 x)) ->
+  let s1 := fst (step valid s0 (IsRunning x)) in
+  snd (step valid s0 (IsRunning x)) = OBool false /\
+  In (o_pid (heap s0 x)) (reused s1) /\
+  snd (step valid (runs valid s1 h1) (IterNext g)) <> OYield p x i.
+Proof.
+  intros s0 Hx Hg Hr [k [Hf Hne]] s1.
+  assert (Hl : Nat.leb (nobj s0) x = false) by (apply Nat.leb_gt; exact Hx).
+  apply Z.eqb_neq in Hne.
+  assert (E : step valid s0 (IsRunning x) =
+              (mk s0 (tbl s0) (pmap s0) (set_add (o_pid (heap s0 x)) (reused s0)) (lowest s0)
+                  (upd_heap (heap s0) x (set_flags (heap s0 x) true true)) (nobj s0) (gens s0) (ngen s0), OBool false)).
+  { cbn [step]. rewrite Hl. unfold is_running_obj. rewrite Hg, Hr, Hf. cbn [orb]. rewrite Hne. reflexivity. }
+  subst s1. rewrite E. cbn [fst snd]. split; [reflexivity|]. split.
+  - cbn [mk reused]. unfold set_add. destruct (zmem _ (reused s0)) eqn:M; [now apply zmem_In|now left].
+  - apply flagged_never_yielded; cbn [mk nobj heap]; [exact Hx|].
+    unfold upd_heap. rewrite Nat.eqb_refl. reflexivity.
+Qed.
+
+Example found_recycled_ex :
+  let s0 := final [0; 1; 2] [Spawn 5 100; Spawn 9 100; IterNew None; IterNext 0; IterNext 0; IterNext 0; Reap 5; Spawn 5 200] in
+  Nat.ltb 0 (nobj s0) = true /\ o_gone (heap s0 0%nat) = false /\ o_reused (heap s0 0%nat) = false /\
+  option_map k_start (find_proc (tbl s0) (o_pid (heap s0 0%nat))) = Some 200 /\ o_start (heap s0 0%nat) = 100.
+Proof. vm_compute. repeat split. Qed.
